@@ -36,6 +36,8 @@ func runC17(c *Ctx) {
 	hiddenState(c, hidden, entries, infos, o)
 	publishedDefaults(c, o)
 	lockPairing(c)
+	singleSection(c)
+	driverStateRule(c, "driver-keeps-no-state", driverMethods, o)
 }
 
 // hiddenState reports package-level variables touched from the entries that are not init-only.
